@@ -215,7 +215,7 @@ bool decode(uint32_t input, uint32_t& output)
         // Apply the correction to the input.
         output = input ^ correction;
         // Only test parity for 3-bit errors.
-        return std::popcount(syndrm) < 3 || !parity(output);
+        return std::popcount(correction) < 3 || !parity(output);
     }
 
     return false;
